@@ -212,7 +212,9 @@ class PatternMarshaller(AbstractMarshaller[PatternT]):
         """
         if not isinstance(val, re.Pattern):
             raise TypeError(f"{val!r} is not a compiled pattern")
-        return val.pattern
+        # (A pattern keeps the very object it was compiled from: an instance of a `str` subclass.)
+        text = val.pattern
+        return str.__str__(text) if isinstance(text, str) and text.__class__ is not str else text
 
 
 DateOrTimeT = tp.TypeVar(
